@@ -467,6 +467,17 @@ class top(exp):
         return float("inf")
 
 
+def _cdiv(a, b):
+    "fixed-width signed division truncates toward zero (python's // floors)"
+    q = abs(a) // abs(b)
+    return -q if (a < 0) != (b < 0) else q
+
+
+def _crem(a, b):
+    "remainder of the truncated division (takes the sign of the dividend)"
+    return a - b * _cdiv(a, b)
+
+
 # -----------------------------------
 # cst holds numeric immediate values
 # -----------------------------------
@@ -590,28 +601,28 @@ class cst(exp):
     @_checkarg_numeric
     def __div__(self, n):
         if n._is_cst:
-            return cst(self.value // n.value, self.size)
+            return cst(_cdiv(self.value, n.value), self.size)
         else:
             return exp.__div__(self, n)
 
     @_checkarg_numeric
     def __truediv__(self, n):
         if n._is_cst:
-            return cst(self.value // n.value, self.size)
+            return cst(_cdiv(self.value, n.value), self.size)
         else:
             return exp.__truediv__(self, n)
 
     @_checkarg_numeric
     def __div__(self, n):
         if n._is_cst:
-            return cst(self.value // n.value, self.size)
+            return cst(_cdiv(self.value, n.value), self.size)
         else:
             return exp.__div__(self, n)
 
     @_checkarg_numeric
     def __mod__(self, n):
         if n._is_cst:
-            return cst(self.value % n.value, self.size)
+            return cst(_crem(self.value, n.value), self.size)
         else:
             return exp.__mod__(self, n)
 
